@@ -176,6 +176,8 @@ impl Ldap {
     ) -> Result<(LdapResult, Exop, SaslCreds)> {
         let id = self.next_msgid();
         self.last_id = id;
+        #[cfg(ldap3_verif)]
+        crate::verif::sched_point().await;
         let (tx, rx) = oneshot::channel();
         self.tx.send((id, op, req, self.controls.take(), tx))?;
         let response = if let Some(timeout) = self.timeout.take() {
